@@ -64,7 +64,7 @@ IsRead(o) == o.kind = "read"
      ret      ids whose result was handed to the caller
      poss     set of possible contents of the node
      wr       number of publishes that may have happened
-     smapwr   id of a finished smap op -> wr at that moment
+     smapwr   id of a finished smap op (no fault while it ran) -> wr at that moment
    --------------------------------------------------------------------------- *)
 AInit(c0) == [queue |-> <<>>, running |-> 0, ops |-> <<>>, fin |-> <<>>, ret |-> {}, poss |-> {c0},
               wr |-> 0, smapwr |-> <<>>]
@@ -109,7 +109,8 @@ AFinish(A, id, st, faulty, res) ==
             !.fin = Ext(A.fin, id, st),
             !.poss = FinishPoss(A, o, st, faulty, res),
             !.wr = IF MayPublish(A, o, st, faulty) THEN A.wr + 1 ELSE A.wr,
-            !.smapwr = IF o.kind = "smap" /\ st = "ok" THEN Ext(A.smapwr, id, A.wr) ELSE A.smapwr]
+            \* a servermap built while server answers failed may be incomplete: an upload that uses it is not judged
+            !.smapwr = IF o.kind = "smap" /\ st = "ok" /\ ~faulty THEN Ext(A.smapwr, id, A.wr) ELSE A.smapwr]
 
 \* the caller gets the result of its own operation, once
 AReturnClause(A, id, st) ==
